@@ -80,6 +80,25 @@ func runDupsortSim(env *RunEnv) {
 	}
 	sim.Quiesce()
 	deregisterHealth()
+	// A peer with the same schema whose uploads are merged here (remote
+	// change sequences).
+	e2, err := lmdbenv.NewWithOptions(env.Root+"/dup-peer", lmdbenv.Options{Create: true, MapSize: 64 * datasize.MB, EnvFlags: lmdb.NoSync | lmdb.NoMetaSync})
+	if err != nil {
+		env.Res.HarnessErr = err.Error()
+		return
+	}
+	defer e2.Close()
+	c2, lc2 := DefaultConf("peer", false)
+	lc2.DupSortHack = true
+	c2.LMDBs[DBName] = lc2
+	peerBucket := NewSimBucket(sim)
+	s2, err := syncer.New(DBName, e2, peerBucket, c2, lc2, syncer.Options{})
+	if err != nil {
+		env.Res.HarnessErr = err.Error()
+		return
+	}
+	sim.Quiesce()
+	deregisterHealth()
 	long := strings.Repeat("L", 511) // dup values are limited to 511 bytes too
 	keys := []string{"k", "key", "a", "a\x00", "a\x00\x00\x00\x00", strings.Repeat("K", 255), strings.Repeat("K", 250), "b\xff"}
 	vals := []string{"v", "val", "", "\x00", "\x00\x00\x00\x00", "\x00\x00\x00\x00x", "\x01", long, long[:510] + "x", long[:510] + "y", long[:505] + "x", long[:505] + "y", long[:260], long[:251] + "a", long[:251] + "b", "w\x00", "\xff"}
@@ -129,6 +148,113 @@ func runDupsortSim(env *RunEnv) {
 	if err := e.Update(func(txn *lmdb.Txn) error { _, err := txn.OpenDBI("dup", lmdb.Create|lmdb.DupSort); return err }); err != nil {
 		env.Res.HarnessErr = err.Error()
 		return
+	}
+	if err := e2.Update(func(txn *lmdb.Txn) error { _, err := txn.OpenDBI("dup", lmdb.Create|lmdb.DupSort); return err }); err != nil {
+		env.Res.HarnessErr = err.Error()
+		return
+	}
+	peerModel := map[pair]bool{}
+	remoteMerges := 0
+	// shadowVersions decodes a dump of the shadow DBI: shadow key -> version
+	shadowVersions := func(st *NodeState) map[string]Version {
+		out := map[string]Version{}
+		if sd := st.DBIs[shadowPrefix+"dup"]; sd != nil {
+			for _, kv := range sd.Pairs {
+				if h, val, err := ParseHdr(kv.V); err == nil {
+					out[string(kv.K)] = Version{TS: h.TS, Deleted: h.Flags&1 != 0, Val: string(val)}
+				}
+			}
+		}
+		return out
+	}
+	// mappableSet: do these pairs map uniquely and order-preservingly?
+	// (independent computation from the documented layout)
+	mappableSet := func(m map[pair]bool) (bool, string) {
+		seen := map[string]pair{}
+		prev := ""
+		for _, p := range sortedPairs(m) {
+			sk, ok := refEncode(p)
+			if !ok {
+				return false, "key length"
+			}
+			if q, dup := seen[sk]; dup {
+				return false, fmt.Sprintf("pairs %dB/%dB and %dB/%dB share a shadow key", len(p.K), len(p.V), len(q.K), len(q.V))
+			}
+			seen[sk] = p
+			if prev != "" && sk < prev {
+				return false, "order not preserved"
+			}
+			prev = sk
+		}
+		return true, ""
+	}
+	// peerUpload applies a few changes on the peer and lets it upload; it
+	// returns the blob, or nil when the peer itself refused its data.
+	peerUpload := func() []byte {
+		nch := 1 + t.Choose("ds-peer-nch", 3)
+		err := e2.Update(func(txn *lmdb.Txn) error {
+			dbi, err := txn.OpenDBI("dup", 0)
+			if err != nil {
+				return err
+			}
+			for i := 0; i < nch; i++ {
+				if t.Chance("ds-peer-del", 350) && len(peerModel) > 0 {
+					ps := sortedPairs(peerModel)
+					d := ps[t.Choose("ds-peer-delwhich", len(ps))]
+					if err := txn.Del(dbi, []byte(d.K), []byte(d.V)); err != nil && !lmdb.IsNotFound(err) {
+						return err
+					}
+					delete(peerModel, d)
+					continue
+				}
+				var p pair
+				if t.Chance("ds-peer-same", 500) && len(model) > 0 {
+					// a pair this instance holds too, or another value of one of its keys
+					ps := sortedPairs(model)
+					p = ps[t.Choose("ds-peer-samewhich", len(ps))]
+					if t.Chance("ds-peer-otherval", 500) {
+						p.V = vals[t.Choose("ds-peer-val", len(vals))]
+					}
+				} else {
+					p = pair{keys[t.Choose("ds-peer-key", len(keys))], vals[t.Choose("ds-peer-val", len(vals))]}
+				}
+				if p.V == "" {
+					p.V = "e"
+				}
+				if len(p.V) > 200 {
+					p.V = p.V[:200] // the whole value fits into every shadow key
+				}
+				if err := txn.Put(dbi, []byte(p.K), []byte(p.V), 0); err != nil {
+					return err
+				}
+				peerModel[p] = true
+			}
+			return nil
+		})
+		if err != nil {
+			panic("harness: peer application: " + err.Error())
+		}
+		known := map[string]bool{}
+		for _, n := range peerBucket.Names() {
+			known[n] = true
+		}
+		sim.Sleep(time.Millisecond)
+		if _, err := s2.SendOnce(context.Background(), e2); err != nil {
+			// the peer's own data is not mappable: start it afresh
+			_ = e2.Update(func(txn *lmdb.Txn) error {
+				dbi, _ := txn.OpenDBI("dup", 0)
+				return txn.Drop(dbi, false)
+			})
+			peerModel = map[pair]bool{}
+			return nil
+		}
+		for _, n := range peerBucket.Names() {
+			if !known[n] {
+				b, _ := peerBucket.Get(n)
+				return b
+			}
+		}
+		return nil
 	}
 	sim.Logf("cfg dupsort-sim empty=%v collide=%v", allowEmpty, allowCollide)
 	rounds := 2 + t.Choose("ds-rounds", 5)
@@ -183,26 +309,138 @@ func runDupsortSim(env *RunEnv) {
 		}
 		before, _ := DumpEnv(e)
 		// is the data mappable? (independent computation from the layout)
-		mappable := true
-		why := ""
-		seen := map[string]pair{}
-		prev := ""
-		for _, p := range sortedPairs(model) {
-			sk, ok := refEncode(p)
-			if !ok {
-				mappable, why = false, "key length"
-				break
+		mappable, why := mappableSet(model)
+		if mappable && !hasEmpty && t.Chance("ds-remote", 400) {
+			// A remote change sequence: the peer's upload is merged with the
+			// real LoadOnce (capture, merge, mirror back in one transaction).
+			if blob := peerUpload(); blob != nil {
+				loaded, err := snapshot.LoadData(blob)
+				ref, rerr := RefDecode(blob)
+				if err != nil || rerr != nil {
+					violate("remote-merge", "peer-upload-undecodable", fmt.Sprintf("the peer's upload does not decode: %v / %v", err, rerr))
+					break
+				}
+				// expected result per shadow key (last writer wins; this
+				// instance's changes of this round are captured now and are
+				// therefore the newest)
+				exp := shadowVersions(before)
+				liveBefore := map[string]bool{}
+				for sk, v := range exp {
+					if !v.Deleted {
+						liveBefore[sk] = true
+					}
+				}
+				now := map[string]bool{}
+				fits := true
+				for p := range model {
+					sk, _ := refEncode(p)
+					now[sk] = true
+					if len(p.V) > 511-len(p.K)-5 {
+						fits = false
+					}
+				}
+				const newest = ^uint64(0)
+				for sk := range now {
+					if !liveBefore[sk] {
+						exp[sk] = Version{TS: newest}
+					}
+				}
+				for sk := range liveBefore {
+					if !now[sk] {
+						exp[sk] = Version{TS: newest, Deleted: true}
+					}
+				}
+				tie := false
+				for _, d := range ref.Databases {
+					if d.Name != "dup" {
+						continue
+					}
+					for _, kv := range d.Entries {
+						pv := Version{TS: kv.TimestampNano, Deleted: kv.Flags&1 != 0}
+						mv, has := exp[string(kv.Key)]
+						if has && mv.TS == pv.TS {
+							tie = true
+						}
+						if !has || pv.TS > mv.TS {
+							exp[string(kv.Key)] = pv
+						}
+					}
+				}
+				sim.Sleep(time.Millisecond)
+				upd := snapshot.Update{Snapshot: loaded, NameInfo: snapshot.NameInfo{Kind: snapshot.KindSnapshot, InstanceID: "peer", FullName: fmt.Sprintf("peer%d", r)}}
+				_, _, lerr := s.LoadOnce(context.Background(), e, "peer", upd, 0)
+				sim.Sleep(time.Millisecond)
+				after, _ := DumpEnv(e)
+				got := readPairs()
+				sim.Logf("  round %d remote merge of %d peer pairs: err=%v pairs %d -> %d", r, len(peerModel), lerr, len(model), len(got))
+				if lerr != nil {
+					refused++
+					if after.Fingerprint() != before.Fingerprint() {
+						violate("refuse-without-change", "refused-but-altered", fmt.Sprintf("the merge was refused (%v) but the LMDB changed: %s", lerr, firstDiff(before, after)))
+					}
+					// The union may not be mappable although both sides were;
+					// start afresh on both sides.
+					for _, x := range []*lmdb.Env{e, e2} {
+						_ = x.Update(func(txn *lmdb.Txn) error {
+							dbi, _ := txn.OpenDBI("dup", 0)
+							return txn.Drop(dbi, false)
+						})
+					}
+					model, peerModel = map[pair]bool{}, map[pair]bool{}
+					continue
+				}
+				remoteMerges++
+				cycles++
+				// (1) the application's DBI holds exactly the live shadow entries
+				av := shadowVersions(after)
+				liveAfter := map[pair]bool{}
+				for sk, v := range av {
+					if v.Deleted {
+						continue
+					}
+					k, ok := refDecodeKey(sk)
+					if !ok {
+						violate("shadow-keys", "shadow-key-undecodable", fmt.Sprintf("shadow key %x does not follow the documented layout", sk))
+						break
+					}
+					liveAfter[pair{k, v.Val}] = true
+				}
+				if len(viol) > 0 {
+					break
+				}
+				same := len(liveAfter) == len(got)
+				for p := range got {
+					if !liveAfter[p] {
+						same = false
+					}
+				}
+				if !same {
+					violate("pairs-preserved", "application-differs-from-merged-state", fmt.Sprintf("after merging a remote snapshot the application's DBI holds %s but the live merged entries are %s", desc(got), desc(liveAfter)))
+					break
+				}
+				// (2) the merged state is the last-writer-wins result
+				if fits && !tie {
+					for sk, ev := range exp {
+						gv, ok := av[sk]
+						if !ok || gv.Deleted != ev.Deleted {
+							violate("remote-merge", "wrong-merge-result", fmt.Sprintf("shadow key %x: expected deleted=%v after the merge, stored: present=%v deleted=%v", sk, ev.Deleted, ok, gv.Deleted))
+							break
+						}
+					}
+					for sk := range av {
+						if _, ok := exp[sk]; !ok && len(viol) == 0 {
+							violate("remote-merge", "wrong-merge-result", fmt.Sprintf("shadow key %x appeared from nowhere", sk))
+						}
+					}
+				}
+				if len(viol) > 0 {
+					break
+				}
+				// The union of two mappable sides need not be mappable; that
+				// is judged when this instance next mirrors it (next round).
+				model = got
+				continue
 			}
-			if q, dup := seen[sk]; dup {
-				mappable, why = false, fmt.Sprintf("pairs %dB/%dB and %dB/%dB share a shadow key", len(p.K), len(p.V), len(q.K), len(q.V))
-				break
-			}
-			seen[sk] = p
-			if prev != "" && sk < prev {
-				mappable, why = false, "order not preserved"
-				break
-			}
-			prev = sk
 		}
 		// one full mirror cycle in one transaction, as LoadOnce does
 		var snapDBI *snapshot.DBI
@@ -291,7 +529,7 @@ func runDupsortSim(env *RunEnv) {
 		_ = bytes.Compare
 	}
 	env.Res.Violations = viol
-	env.Res.Counts = map[string]int{"cycles": cycles, "refused": refused}
+	env.Res.Counts = map[string]int{"cycles": cycles, "refused": refused, "remote_merges": remoteMerges}
 	env.Res.Nontrivial = cycles >= 1
 }
 
